@@ -52,6 +52,8 @@ bool cmi_process_remove_holdable(struct cmb_process *pp, const struct cmi_holdab
 static unsigned cmv_nint; static struct cmb_process *cmv_int_p[2]; static int64_t cmv_int_sig[2], cmv_int_pri[2];
 void cmb_process_interrupt(struct cmb_process *pp, int64_t sig, int64_t pri)
 {
+    /* checked at the moment a victim is notified, so it also holds after waits during which priorities changed */
+    OBT("C07-O3", pp != P && pp->priority < P->priority, "a preemption victim is another process whose priority is strictly below the preemptor's CURRENT priority");
     for (unsigned k = 0; k < 2u; k++) if (k == cmv_nint) { cmv_int_p[k] = pp; cmv_int_sig[k] = sig; cmv_int_pri[k] = pri; }
     if (cmv_nint < 3u) cmv_nint++;
 }
@@ -110,6 +112,10 @@ static void env_redraw(void)
     const _Bool preempt_p = (hp > 0u) && nondet_bool();
     if (preempt_p) { (void)cmi_hashheap_remove(&RP->holders, (uint64_t)P); P->resources.next = NULL; cmv_lists[0] = 0; cmv_p_preempted = 1; }
     const uint64_t keep = preempt_p ? 0u : hp;
+#ifdef CMV_PRIO_CHANGES
+    /* somebody else changes the caller's priority while it waits (cmb_process_priority_set re-keys its record) */
+    if (nondet_bool()) { P->priority = nondet_i64(); if (keep > 0u) { (void)cmi_hashheap_remove(&RP->holders, (uint64_t)P); put_record(P, keep); } }
+#endif
     uint64_t a = nondet_u64(), b = nondet_u64();
 #ifdef CMV_ONE_OTHER
     b = 0u;
